@@ -110,7 +110,9 @@ Definition g0 : gst := mkG auth0 (fun _ => None) (fun _ => []) (fun _ => []) (fu
 
 Inductive gop :=
 | GNewValue (v : N) (nm : option name)
-| GCtor (vals : list N)                           (* Graph(inputs, ..., initializers): registers them in order *)
+| GCtor (ins inits : list N)                      (* Graph(inputs, ..., initializers), since fix f54d66f: the explicit
+                                                     names of inputs and initializers are registered first, then every
+                                                     input is registered or named *)
 | GNewNode (n : N) (nm : option name) (op : name) (outs : list (N * option name)) (foreign : bool)
 | GAdd (ns : list N)                              (* append / extend / insert_before / insert_after *)
 | GRemove (n : N)
@@ -161,7 +163,11 @@ Definition g_addnodes (g : gst) (ns : list N) : option (gst * res unit) :=
 Definition gstep (g : gst) (o : gop) : option (gst * res unit) :=
   match o with
   | GNewValue v nm => Some (mkG (g_au g) (g_nname g) (g_nop g) (g_nouts g) (g_foreign g) (g_in g) (upd (g_vname g) v nm), Ok tt)
-  | GCtor vals => match g_regvs g vals with None => None | Some g1 => Some (g1, Ok tt) end
+  | GCtor ins inits =>
+      match g_regvs g (filter (fun v => match g_vname g v with Some _ => true | None => false end) (ins ++ inits)) with
+      | None => None
+      | Some g1 => match g_regvs g1 ins with None => None | Some g2 => Some (g2, Ok tt) end
+      end
   | GNewNode n nm op outs foreign =>
       let vn' := fold_left (fun f p => upd f (fst p) (snd p)) outs (g_vname g) in
       Some (mkG (g_au g) (upd (g_nname g) n nm) (upd (g_nop g) n op) (upd (g_nouts g) n (map fst outs))
@@ -237,6 +243,8 @@ with events_node (n : node) : list ev :=
 
 Definition idict := list (name * N).                      (* GraphInitializers.data, insertion order *)
 Record fstate := mkF {
+  f_own : N -> option N;                (* Value.graph: the graph that owns the value (static) *)
+  f_so : list N;                        (* scope_owners, top first (fix 5fabe37): the graph of every open scope *)
   f_vx : N -> N;                        (* everything of a Value that is not its name (type, shape, tensor object,
                                            producer, uses, ownership flags), as an opaque token *)
   f_nx : N -> N;                        (* everything of a Node that is not its name, as an opaque token *)
@@ -325,26 +333,51 @@ Definition process_value (v : N) (s : fstate) : fres :=
       let known := match nm with Some n => negb (is_empty nm) && negb (mem n used) | None => false end in
       if known then
         (* name is unique so far: record it *)
-        (mkF (f_vx s) (f_nx s) (f_rv s) (f_rn s) (f_vn s) (f_nn s) (f_inits s) (v :: f_seen s) (f_vcnt s) (f_ncnt s)
+        (mkF (f_own s) (f_so s) (f_vx s) (f_nx s) (f_rv s) (f_rn s) (f_vn s) (f_nn s) (f_inits s) (v :: f_seen s) (f_vcnt s) (f_ncnt s)
              (((match nm with Some n => n | None => [] end) :: used) :: rest) (f_nscopes s) (f_mod s), None)
       else
         let pref := if is_empty nm then s_v else match nm with Some n => n | None => s_v end in
         match find_unique pref used (f_vcnt s) (f_rv s) with
         | None => (s, Some OtherError)
         | Some (new, used', cnt') =>
-            let s1 := mkF (f_vx s) (f_nx s) (f_rv s) (f_rn s) (f_vn s) (f_nn s) (f_inits s) (f_seen s) cnt' (f_ncnt s) (used' :: rest) (f_nscopes s) (f_mod s) in
+            let s1 := mkF (f_own s) (f_so s) (f_vx s) (f_nx s) (f_rv s) (f_rn s) (f_vn s) (f_nn s) (f_inits s) (f_seen s) cnt' (f_ncnt s) (used' :: rest) (f_nscopes s) (f_mod s) in
             match set_vname v new (f_vn s) (f_inits s) with
             | Raise e => (s1, Some e)
             | Ok (vn', inits') =>
-                (mkF (f_vx s) (f_nx s) (f_rv s) (f_rn s) vn' (f_nn s) inits' (v :: f_seen s) cnt' (f_ncnt s) (used' :: rest) (f_nscopes s) true, None)
+                (mkF (f_own s) (f_so s) (f_vx s) (f_nx s) (f_rv s) (f_rn s) vn' (f_nn s) inits' (v :: f_seen s) cnt' (f_ncnt s) (used' :: rest) (f_nscopes s) true, None)
             end
         end
   end.
 
+(* fix 5fabe37: after the first visit of a value, its name is also added to the scopes of the graph that owns
+   the value and of the graphs in between - scoped_used_value_names[i + 1 : -1] for the first i with
+   scope_owners[i] is value.graph; the top scope already holds it.  add_upto walks the scopes below the top
+   (top first) and adds the name at every level at or above the bottom-most scope of that owner. *)
+Fixpoint add_upto (g : N) (x : name) (owners : list N) (scopes : list (list name)) : list (list name) * bool :=
+  match owners, scopes with
+  | o :: os, u :: us =>
+      let '(us', below) := add_upto g x os us in
+      if below || N.eqb o g then (sadd x u :: us', true) else (u :: us', false)
+  | _, _ => (scopes, false)
+  end.
+Definition with_vscopes (s : fstate) (sc : list (list name)) : fstate :=
+  mkF (f_own s) (f_so s) (f_vx s) (f_nx s) (f_rv s) (f_rn s) (f_vn s) (f_nn s) (f_inits s) (f_seen s) (f_vcnt s) (f_ncnt s)
+      sc (f_nscopes s) (f_mod s).
+Definition rc_scopes (v : N) (s : fstate) : list (list name) :=
+  match f_own s v, f_vn s v, f_vscopes s, f_so s with
+  | Some g, Some x, top :: rest, _ :: orest => top :: fst (add_upto g x orest rest)
+  | _, _, _, _ => f_vscopes s
+  end.
+Definition record_captured (v : N) (s : fstate) : fstate := with_vscopes s (rc_scopes v s).
+(* the closure process_value(value) of _fix_graph_names *)
+Definition process_value_rec (v : N) (s : fstate) : fres :=
+  let first := negb (memN v (f_seen s)) in
+  fbind (process_value v s) (fun s1 => (if first then record_captured v s1 else s1, None)).
+
 Fixpoint process_values (vs : list N) (s : fstate) : fres :=
   match vs with
   | [] => (s, None)
-  | v :: r => fbind (process_value v s) (process_values r)
+  | v :: r => fbind (process_value_rec v s) (process_values r)
   end.
 
 Fixpoint somes {A} (l : list (option A)) : list A :=
@@ -358,14 +391,14 @@ Definition process_node_name (n : N) (s : fstate) : fres :=
       let nm := f_nn s n in
       let known := match nm with Some x => negb (is_empty nm) && negb (mem x used) | None => false end in
       if known then
-        (mkF (f_vx s) (f_nx s) (f_rv s) (f_rn s) (f_vn s) (f_nn s) (f_inits s) (f_seen s) (f_vcnt s) (f_ncnt s) (f_vscopes s)
+        (mkF (f_own s) (f_so s) (f_vx s) (f_nx s) (f_rv s) (f_rn s) (f_vn s) (f_nn s) (f_inits s) (f_seen s) (f_vcnt s) (f_ncnt s) (f_vscopes s)
              (((match nm with Some x => x | None => [] end) :: used) :: rest) (f_mod s), None)
       else
         let pref := if is_empty nm then s_node else match nm with Some x => x | None => s_node end in
         match find_unique pref used (f_ncnt s) (f_rn s) with
         | None => (s, Some OtherError)
         | Some (new, used', cnt') =>
-            (mkF (f_vx s) (f_nx s) (f_rv s) (f_rn s) (f_vn s) (upd (f_nn s) n (Some new)) (f_inits s) (f_seen s) (f_vcnt s) cnt' (f_vscopes s)
+            (mkF (f_own s) (f_so s) (f_vx s) (f_nx s) (f_rv s) (f_rn s) (f_vn s) (upd (f_nn s) n (Some new)) (f_inits s) (f_seen s) (f_vcnt s) cnt' (f_vscopes s)
                  (used' :: rest) true, None)
         end
   end.
@@ -378,7 +411,7 @@ Definition fx_step (e : ev) (s : fstate) : fres :=
       match f_vscopes s with
       | [] => (s, Some IndexError)
       | top :: _ =>
-          let s1 := mkF (f_vx s) (f_nx s) (f_rv s) (f_rn s) (f_vn s) (f_nn s) (f_inits s) (f_seen s) (f_vcnt s) (f_ncnt s)
+          let s1 := mkF (f_own s) (gid :: f_so s) (f_vx s) (f_nx s) (f_rv s) (f_rn s) (f_vn s) (f_nn s) (f_inits s) (f_seen s) (f_vcnt s) (f_ncnt s)
                         (top :: f_vscopes s) ([] :: f_nscopes s) (f_mod s) in
           fbind (process_values ins s1) (fun s2 =>
           fbind (process_values outs s2) (fun s3 =>
@@ -386,7 +419,7 @@ Definition fx_step (e : ev) (s : fstate) : fres :=
           else process_values (map snd (get_dict gid (f_inits s3))) s3))   (* tuple(initializers.values()) *)
       end
   | EExit =>
-      (mkF (f_vx s) (f_nx s) (f_rv s) (f_rn s) (f_vn s) (f_nn s) (f_inits s) (f_seen s) (f_vcnt s) (f_ncnt s)
+      (mkF (f_own s) (tl (f_so s)) (f_vx s) (f_nx s) (f_rv s) (f_rn s) (f_vn s) (f_nn s) (f_inits s) (f_seen s) (f_vcnt s) (f_ncnt s)
            (tl (f_vscopes s)) (tl (f_nscopes s)) (f_mod s), None)
   | ENode nid nins nouts =>
       fbind (process_node_name nid s) (fun s1 =>
@@ -418,20 +451,20 @@ Fixpoint collect_names (es : list ev) (vn nn : N -> option name) (inits : list (
 
 (* _fix_graph_names(graph_like): fresh seen/counters/scopes (the dummy bottom scope), the reserved names,
    then the traversal *)
-Definition fx_init (vx nx : N -> N) (rv rn : list name) (vn nn : N -> option name) (inits : list (N * idict)) (m : bool) : fstate :=
-  mkF vx nx rv rn vn nn inits [] [] [] [[]] [[]] m.
-Definition fix_graph_names (g : graph) (vx nx : N -> N) (vn nn : N -> option name) (inits : list (N * idict)) (m : bool) : fres :=
+Definition fx_init (own : N -> option N) (vx nx : N -> N) (rv rn : list name) (vn nn : N -> option name) (inits : list (N * idict)) (m : bool) : fstate :=
+  mkF own [] vx nx rv rn vn nn inits [] [] [] [[]] [[]] m.
+Definition fix_graph_names (g : graph) (own : N -> option N) (vx nx : N -> N) (vn nn : N -> option name) (inits : list (N * idict)) (m : bool) : fres :=
   let '(rv, rn) := collect_names (events_graph g) vn nn inits in
-  fx_events (events_graph g) (fx_init vx nx rv rn vn nn inits m).
+  fx_events (events_graph g) (fx_init own vx nx rv rn vn nn inits m).
 
 (* NameFixPass.call: main graph, then every function, each with fresh bookkeeping *)
 Fixpoint fix_all (gs : list graph) (s : fstate) : fres :=
   match gs with
   | [] => (s, None)
-  | g :: r => fbind (fix_graph_names g (f_vx s) (f_nx s) (f_vn s) (f_nn s) (f_inits s) (f_mod s)) (fix_all r)
+  | g :: r => fbind (fix_graph_names g (f_own s) (f_vx s) (f_nx s) (f_vn s) (f_nn s) (f_inits s) (f_mod s)) (fix_all r)
   end.
-Definition name_fix_pass (main : graph) (funcs : list graph) (vx nx : N -> N) (vn nn : N -> option name) (inits : list (N * idict)) : fres :=
-  fix_all (main :: funcs) (fx_init vx nx [] [] vn nn inits false).
+Definition name_fix_pass (main : graph) (funcs : list graph) (own : N -> option N) (vx nx : N -> N) (vn nn : N -> option name) (inits : list (N * idict)) : fres :=
+  fix_all (main :: funcs) (fx_init own vx nx [] [] vn nn inits false).
 
 (* ================================================================== (C) rename_values *)
 Record rstate := mkR {
@@ -640,11 +673,11 @@ Definition a_agree (c : a_case) : bool :=
 
 (* (B) NameFixPass: outcome, modified flag (on Ok), all names, initializer dictionaries *)
 Definition b_case := (graph * list graph * list (N * option name) * list (N * option name) * list (N * idict)
-                      * list N * list N * list (N * N) * list (N * N)
+                      * list N * list N * list (N * N) * list (N * N) * list (N * option N)
                       * (option exn * bool * list (option name) * list (option name) * list (N * idict) * list N * list N))%type.
 Definition b_agree (c : b_case) : bool :=
-  let '(main, funcs, vn, nn, inits, vids, nids, vx, nx, (err, md, evn, enn, einits, evx, enx)) := c in
-  let '(s, e) := name_fix_pass main funcs (of_alist 0 vx) (of_alist 0 nx) (of_alist None vn) (of_alist None nn) inits in
+  let '(main, funcs, vn, nn, inits, vids, nids, vx, nx, own, (err, md, evn, enn, einits, evx, enx)) := c in
+  let '(s, e) := name_fix_pass main funcs (of_alist None own) (of_alist 0 vx) (of_alist 0 nx) (of_alist None vn) (of_alist None nn) inits in
   option_eqb exn_eqb e err
   && (match e with None => Bool.eqb (f_mod s) md | Some _ => true end)
   && list_eqb oname_eqb (map (f_vn s) vids) evn
